@@ -198,6 +198,16 @@ def main(tier, seed):
             bad.append(("scheduling from callbacks (tasks, generations): " + c, o, ["%s outputs delivered, %s expected, when tasks are scheduled from inside callbacks and futures" % (ws[0], ws[1])]))
     chk.cov["schedule_from_callbacks_cases"] = len(rcases)
     chk.cov["evaluations"] += len(rcases)
+    # the executor and another source ready in ONE batch: the other source's callback wakes a task (single-threaded)
+    mcases = ["other_first", "exec_first"]
+    mout = p_c03.run_batch(vlib.HARNESS, "execmix", mcases)
+    chk.cov["executor_and_other_source_in_one_batch"] = dict(zip(mcases, mout))
+    chk.cov["evaluations"] += len(mcases)
+    for c, o in zip(mcases, mout):
+        if o.strip() != "x=3 y=2 z=1":
+            bad.append(("executor and another source in one batch: " + c, o, ["a ping source and the executor were ready in one batch and the ping's callback woke task X "
+                        "(the wake of task Y had made the executor ready): polls of X, Y and of a future scheduled afterwards are `%s`, wanted x=3 y=2 z=1 - a later "
+                        "wake or schedule() never reached the executor" % o.strip()]))
     k13 = [x for x in vlib.load_known() if x.get("id") == "F13" and x.get("status") == "known"]
     d13 = p_c03.run_batch(vlib.HARNESS, "cexec13", ["norace", "race"])
     chk.cov["executor_drop_witness"] = d13
@@ -226,6 +236,13 @@ def main(tier, seed):
 
 
 def replay(path):
+    mcases = [l.split(":", 1)[1].strip() for l in open(path) if l.startswith("executor and another source in one batch:")]
+    if mcases:
+        vlib.build_harness()
+        out = p_c03.run_batch(vlib.HARNESS, "execmix", mcases)
+        for c, o in zip(mcases, out):
+            print(c, "->", o)
+        return 0 if all(o.strip() == "x=3 y=2 z=1" for o in out) else 1
     rcases = [l.split(":", 1)[1].strip() for l in open(path) if l.startswith("scheduling from callbacks (tasks")]
     if rcases:
         vlib.build_harness()
